@@ -3,10 +3,11 @@
 //! sim services for routing that never completes) and clients that probe the configured frame
 //! limit, cookie expiry / secret, and the connection deadline.
 
+use super::c15::{v1_header, v2_header};
 use super::common::*;
 use crate::client::{ClientSpec, Cut, KaPolicy};
 use crate::net::{NetCfg, NetClient, NetOutcome, NetScenario, run_net};
-use crate::pipe::Gate;
+use crate::pipe::{Gate, PipeState, WRule};
 use crate::rng::Rng;
 use crate::runner::{Check, RunReport, Tier};
 use crate::services::{AuthRes, DiscRes, Script, Services, TargetSpec};
@@ -25,6 +26,8 @@ pub enum Role {
     Trickle { gap_ns: u64 },
     StopsAfter { frames: usize },
     EchoForever,
+    /// logs in but stops reading after the server's first `after` writes
+    NeverReads { after: usize },
 }
 
 #[derive(Clone, Debug, Serialize, Deserialize, PartialEq)]
@@ -58,6 +61,9 @@ fn generate(rng: &mut Rng) -> C14Sc {
         _ => Some(b"a-much-longer-operator-secret-0123456789".to_vec()),
     };
     let timeout_s = *rng.pick(&[1u64, 5, 30, 120, 600]);
+    // with PROXY protocol the client is admitted once its header is complete; the header itself has to
+    // arrive within the timeout
+    let proxy = if rng.chance(1, 4) { Some((true, true)) } else { None };
     let mut services = Services {
         auth: Script::always(Some(0), AuthRes::Profile { name: "FixedProfile".into(), uuid: format!("{:032x}", 0xfeedu128), props: vec![] }),
         discovery: Script::always(Some(0), DiscRes::Targets(vec![TargetSpec { id: "t0".into(), addr: "10.9.8.7:25565".into(), meta: Default::default() }])),
@@ -69,7 +75,8 @@ fn generate(rng: &mut Rng) -> C14Sc {
     let wall = crate::conn::Wall::default();
     for i in 0..n {
         let peer = format!("192.0.2.{}:{}", 10 + i, 40000 + i);
-        let role = match rng.below(if use_start { 8 } else { 9 }) {
+        let effective = if proxy.is_some() { format!("198.51.100.{}:{}", 20 + i, 50000 + i) } else { peer.clone() };
+        let role = match rng.below(if use_start { 9 } else { 10 }) {
             0 | 1 => Role::FrameLen { len: if rng.chance(1, 2) { max_frame } else { max_frame + 1 } },
             2 | 3 => Role::Cookie {
                 age_s: match rng.below(4) {
@@ -83,8 +90,10 @@ fn generate(rng: &mut Rng) -> C14Sc {
             4 => Role::Silent,
             5 => Role::Trickle { gap_ns: secs(rng.range(1, (timeout_s / 4).max(1))) },
             6 | 7 => Role::StopsAfter { frames: rng.range(1, 7) as usize },
+            8 => Role::NeverReads { after: rng.range(0, 6) as usize },
             _ => Role::EchoForever,
         };
+        let mut wplan = vec![];
         let mut spec;
         match &role {
             Role::FrameLen { len } => {
@@ -97,7 +106,7 @@ fn generate(rng: &mut Rng) -> C14Sc {
             Role::Cookie { age_s, right_secret } => {
                 spec = ClientSpec::base(rng, 3);
                 let id = Identity { name: "CookieIdent".into(), uuid: 0xc00c1e, props: vec![] };
-                let body = cookie_json(wall.base_s.saturating_sub(*age_s), &peer, &id, Some("t0"));
+                let body = cookie_json(wall.base_s.saturating_sub(*age_s), &effective, &id, Some("t0"));
                 let sec = if *right_secret { secret.clone().unwrap_or_else(|| b"none".to_vec()) } else { b"another-secret".to_vec() };
                 spec.auth_cookie = Some(signed_cookie(&sec, &body));
             }
@@ -122,25 +131,51 @@ fn generate(rng: &mut Rng) -> C14Sc {
                 spec.ka_default = KaPolicy::Prompt;
                 services.discovery = Script::always(None, DiscRes::Targets(vec![]));
             }
+            Role::NeverReads { after } => {
+                spec = ClientSpec::base(rng, 2);
+                for _ in 0..*after {
+                    wplan.push(WRule::Accept { max: 1_000_000 });
+                }
+                wplan.push(WRule::Stall);
+            }
         }
         spec.close_on_end_ns = None;
         spec.coalesce = rng.chance(1, 2);
-        clients.push(NetClient { connect_at_ns: ms(rng.range(0, 3000)), peer, spec, wplan: vec![] });
+        if proxy.is_some() {
+            let src: std::net::SocketAddr = effective.parse().unwrap();
+            let dst: std::net::SocketAddr = "192.0.2.200:25565".parse().unwrap();
+            let h = if rng.chance(1, 2) { v1_header(&src, &dst) } else { v2_header(&src, &dst, false) };
+            let hl = h.len() as u64;
+            // every cut the role made counts from the first protocol byte: move it behind the header
+            for c in &mut spec.cuts {
+                c.at += hl;
+            }
+            spec.preamble = Some(h);
+            if rng.chance(1, 2) {
+                let d = *rng.pick(&[secs(1), secs(timeout_s) / 2, secs(timeout_s) - ms(500)]);
+                spec.cuts.push(Cut { at: rng.range(1, hl - 1), gate: Gate::Delay { ns: d }, spurious: 0 });
+            }
+        }
+        clients.push(NetClient { connect_at_ns: ms(rng.range(0, 3000)), peer, spec, wplan });
         roles.push(role);
     }
     C14Sc {
         net: NetScenario {
             seed: rng.next_u64(),
-            cfg: NetCfg { secret, expiry: Some(expiry), max_frame: Some(max_frame), timeout_ns: secs(timeout_s), proxy: None, limiter: None, use_start },
+            cfg: NetCfg { secret, expiry: Some(expiry), max_frame: Some(max_frame), timeout_ns: secs(timeout_s), proxy, limiter: None, use_start },
             wall,
             services,
             clients,
             stop_at_ns: None,
             stop_before: false,
-            cap_ns: secs(timeout_s) + secs(30),
+            cap_ns: 2 * secs(timeout_s) + secs(30),
         },
         roles,
     }
+}
+
+fn plen_of(c: &NetClient) -> u64 {
+    c.spec.preamble.as_ref().map(|p| p.len() as u64).unwrap_or(0)
 }
 
 pub fn check(sc: &C14Sc, out: &NetOutcome, rep: &mut RunReport) {
@@ -159,6 +194,11 @@ pub fn check(sc: &C14Sc, out: &NetOutcome, rep: &mut RunReport) {
             rep.violate("listener_accepts", format!("client {i} was never accepted"));
             continue;
         };
+        // admitted when accepted, or - with PROXY protocol - when the header was complete, which itself has
+        // to happen within the timeout
+        let plen = sc.net.clients[i].spec.preamble.as_ref().map(|p| p.len() as u64).unwrap_or(0);
+        let hdr = if plen > 0 { PipeState::avail_at(&c.avail, plen).unwrap_or(u64::MAX) } else { acc };
+        let acc = if hdr <= acc + cfg.timeout_ns { acc.max(hdr) } else { acc };
         // the deadline, whatever the client does
         match c.closed_ns {
             Some(t) if t <= acc + cfg.timeout_ns => {}
@@ -187,7 +227,8 @@ pub fn check(sc: &C14Sc, out: &NetOutcome, rep: &mut RunReport) {
                 }
                 let spec = &sc.net.clients[i].spec;
                 let t = c.view.sent.iter().filter(|s| s.kind == "CookieResponse").nth(1).map(|s| s.t_ns).unwrap_or(0);
-                let pred = cookie_accepted(3, cfg.secret.as_deref(), spec.auth_cookie.as_deref(), &sc.net.clients[i].peer, sc.net.wall.at(t), cfg.expiry.unwrap_or(21_600));
+                let effective = if cfg.proxy.is_some() { format!("198.51.100.{}:{}", 20 + i, 50000 + i) } else { sc.net.clients[i].peer.clone() };
+                let pred = cookie_accepted(3, cfg.secret.as_deref(), spec.auth_cookie.as_deref(), &effective, sc.net.wall.at(t), cfg.expiry.unwrap_or(21_600));
                 let Some(er) = c.view.first("EncryptionRequest") else {
                     rep.violate("cookie_connection_progresses", format!("client {i}: no Encryption Request, packets {:?}", c.view.kinds()));
                     continue;
@@ -238,18 +279,27 @@ impl Check for C14 {
         if !net_domain_ok(&sc.net) {
             return RunReport::default();
         }
-        if sc.roles.len() != sc.net.clients.len() || sc.net.cfg.proxy.is_some() || sc.net.cfg.limiter.is_some() || sc.net.cap_ns < sc.net.cfg.timeout_ns + secs(10) || sc.net.cfg.timeout_ns < secs(1) || sc.net.cfg.timeout_ns % secs(1) != 0 {
+        if sc.roles.len() != sc.net.clients.len() || sc.net.cfg.limiter.is_some() || sc.net.cap_ns < 2 * sc.net.cfg.timeout_ns + secs(10) || sc.net.cfg.timeout_ns < secs(1) || sc.net.cfg.timeout_ns % secs(1) != 0 {
             return RunReport::default();
         }
         // roles and client programs must still agree (the shrinker may alter either)
         for (c, r) in sc.net.clients.iter().zip(sc.roles.iter()) {
             let ok = match r {
-                Role::FrameLen { len } => c.spec.intent == 1 && host_len_for(*len).is_some_and(|h| c.spec.host.len() == h) && c.spec.protocol == 769 && c.spec.cuts.is_empty(),
-                Role::Cookie { .. } => c.spec.intent == 3 && c.spec.mute_after.is_none() && c.spec.cuts.is_empty(),
+                Role::FrameLen { len } => c.spec.intent == 1 && host_len_for(*len).is_some_and(|h| c.spec.host.len() == h) && c.spec.protocol == 769 && c.spec.cuts.iter().all(|k| k.at < plen_of(c)),
+                Role::Cookie { .. } => c.spec.intent == 3 && c.spec.mute_after.is_none() && c.spec.cuts.iter().all(|k| k.at < plen_of(c)),
                 _ => true,
             };
-            if !ok || c.spec.script.is_some() || !c.spec.mutations.is_empty() || c.spec.preamble.is_some() {
+            if !ok || c.spec.script.is_some() || !c.spec.mutations.is_empty() || c.spec.preamble.is_some() != sc.net.cfg.proxy.is_some() {
                 return RunReport::default();
+            }
+            // the header a client announces must be the one the oracle assumes (index-derived source)
+            if let Some(p) = &c.spec.preamble {
+                let i = sc.net.clients.iter().position(|x| x.peer == c.peer).unwrap_or(0);
+                let src: std::net::SocketAddr = format!("198.51.100.{}:{}", 20 + i, 50000 + i).parse().unwrap();
+                let dst: std::net::SocketAddr = "192.0.2.200:25565".parse().unwrap();
+                if *p != v1_header(&src, &dst) && *p != v2_header(&src, &dst, false) {
+                    return RunReport::default();
+                }
             }
         }
         let out = run_net(&sc.net);
@@ -265,6 +315,12 @@ impl Check for C14 {
         h.write_str(&format!("{:?}{:?}{}", sc.roles, sc.net.cfg.max_frame, sc.net.cfg.use_start));
         rep.trace_hash = h.0;
         rep.nontrivial = true;
+        if sc.net.cfg.proxy.is_some() {
+            *rep.faults.entry("proxy_protocol_enabled".into()).or_insert(0) += 1;
+        }
+        if sc.net.clients.iter().any(|c| c.spec.cuts.iter().any(|k| k.at < plen_of(c))) {
+            *rep.faults.entry("proxy_header_trickles_in".into()).or_insert(0) += 1;
+        }
         for r in &sc.roles {
             let name = match r {
                 Role::FrameLen { .. } => "client_frame_at_limit",
@@ -273,6 +329,7 @@ impl Check for C14 {
                 Role::Trickle { .. } => "client_trickle",
                 Role::StopsAfter { .. } => "client_stops_mid_protocol",
                 Role::EchoForever => "client_echoes_forever_routing_stalled",
+                Role::NeverReads { .. } => "client_never_reads",
             };
             *rep.faults.entry(name.into()).or_insert(0) += 1;
         }
